@@ -1587,7 +1587,15 @@ Pointset_Powerset<PSET>::ascii_load(std::istream& s) {
     if (!ph.ascii_load(s)) {
       return false;
     }
-    new_x.add_disjunct(ph);
+    if (ph.space_dimension() != x.space_dim) {
+      return false;
+    }
+    // Note: `ph' is swapped in rather than copied, because a copy only
+    // preserves the up-to-date parts of the representation, so that the
+    // loaded powerset would not dump to the same text.
+    new_x.sequence.push_back(Determinate<PSET>(PSET(x.space_dim, EMPTY)));
+    new_x.sequence.back().pointset().m_swap(ph);
+    new_x.reduced = false;
   }
   swap(x, new_x);
 
